@@ -9,6 +9,10 @@
 //	J elected=.. ops=.. writes=..      the stamped history for the Lean judge (at most one Enable)
 //	X <reason>                         inconclusive case (timeout = possible deadlock)
 //
+// A request with tag t addresses the resource (kind t%3 of ConfigMap/Secret/Service, namespace "verif", name t/3): requests are
+// keyed by (kind, namespace, name) and consecutive tags share namespace/name. With -wiring the real eventHandlerImpl is put in
+// front of the updater (see wiring.go).
+//
 // The harness plays controller-runtime's runnable groups: a runnable whose NeedLeaderElection() is
 // false is started when the manager starts, the others when (and only if) the replica is elected.
 package c09
@@ -73,15 +77,37 @@ func newSys(jitter bool, seed uint64) *sys {
 	return s
 }
 
-func mkReqs(g int, tags []int) []status.UpdateRequest {
+// reqKinds: the resource types of the synthetic requests. Tag t addresses (kind t%3, namespace "verif", name t/3):
+// tags 3k, 3k+1, 3k+2 share namespace/name and differ in kind only, so a request is identified by
+// (kind, namespace, name), never by NsName alone.
+var reqKinds = []client.Object{&v1.ConfigMap{}, &v1.Secret{}, &v1.Service{}}
+
+func tagKey(t int) (kind int, nn types.NamespacedName) {
+	return t % len(reqKinds), types.NamespacedName{Namespace: "verif", Name: strconv.Itoa(t / len(reqKinds))}
+}
+
+func kindIndex(obj client.Object) int {
+	switch obj.(type) {
+	case *v1.ConfigMap:
+		return 0
+	case *v1.Secret:
+		return 1
+	case *v1.Service:
+		return 2
+	}
+	return -1
+}
+
+func mkReqs(_ int, tags []int) []status.UpdateRequest {
 	reqs := make([]status.UpdateRequest, 0, len(tags))
 	for _, t := range tags {
-		name := strconv.Itoa(t)
+		tag := strconv.Itoa(t)
+		kind, nn := tagKey(t)
 		reqs = append(reqs, status.UpdateRequest{
-			ResourceType: &v1.ConfigMap{},
-			NsName:       types.NamespacedName{Namespace: groupNames[g], Name: name},
+			ResourceType: reqKinds[kind].DeepCopyObject().(client.Object),
+			NsName:       nn,
 			Setter: func(obj client.Object) bool {
-				obj.SetAnnotations(map[string]string{"verif-tag": name})
+				obj.SetAnnotations(map[string]string{"verif-tag": tag})
 				return true
 			},
 		})
@@ -397,7 +423,12 @@ func Run(args []string) int {
 	maxOps := fs.Int("maxops", 10, "max submissions per sequential case")
 	conc := fs.Bool("conc", false, "concurrent histories (judge only)")
 	replay := fs.String("replay", "", "file with one sequential operation list per line (corpus)")
+	wiring := fs.Bool("wiring", false, "real eventHandlerImpl in front of the real LeaderAwareGroupUpdater")
+	maxSteps := fs.Int("maxsteps", 6, "max batches per wiring case")
 	_ = fs.Parse(args)
+	if *wiring {
+		return runWiringCases(*seed, *n, *maxSteps)
+	}
 	r := rng.New(*seed)
 	w := bufio.NewWriter(os.Stdout)
 	defer w.Flush()
